@@ -201,7 +201,8 @@ func (s *fsm12) wait(ctx context.Context, conn Conn) (State, error) { //nolint:g
 			}
 			if vtrace.Enabled {
 				vtrace.Emit(s.cfg, "fsm.parsed", "client", s.state.IsClient, "flight", s.currentFlight.String(),
-					"next", nextFlight.String(), "alert", dtlsAlert != nil, "err", err != nil)
+					"next", nextFlight.String(), "alert", dtlsAlert != nil, "err", err != nil,
+					"interval", int64(s.retransmitInterval), "retransmit", s.retransmit)
 			}
 			close(state.Done)
 			if dtlsAlert != nil {
